@@ -26,7 +26,7 @@ TECHNIQUE = 'bounded: reference parser for operation strings, format/parse path 
 TRUSTED = ['the independent reference parser of the operation syntax in this file']
 ASSUMPTIONS = ['one client connection at a time']
 
-SIZES = {'SINT': (0xc2, 1), 'USINT': (0xc6, 1), 'INT': (0xc3, 2), 'UINT': (0xc7, 2), 'DINT': (0xc4, 4), 'UDINT': (0xc8, 4), 'LINT': (0xc5, 8), 'ULINT': (0xc9, 8),
+SIZES = {'STRING': (0xd0, 0), 'SSTRING': (0xda, 0), 'SINT': (0xc2, 1), 'USINT': (0xc6, 1), 'INT': (0xc3, 2), 'UINT': (0xc7, 2), 'DINT': (0xc4, 4), 'UDINT': (0xc8, 4), 'LINT': (0xc5, 8), 'ULINT': (0xc9, 8),
          'REAL': (0xca, 4), 'LREAL': (0xcb, 8), 'BOOL': (0xc1, 1)}
 
 
@@ -101,8 +101,11 @@ def ref_operation(text, fragment=False, int_type='INT'):
             t, v = v.split(')', 1)
             typ = t.split('(', 1)[1].strip().upper()
         code, size = SIZES[typ]
-        conv = float if typ in ('REAL', 'LREAL') else (lambda x: int(x))
-        items = [conv(x.strip()) for x in v.split(',')]
+        if typ in ('STRING', 'SSTRING'):
+            items = split_quoted(v)
+        else:
+            conv = float if typ in ('REAL', 'LREAL') else (lambda x: int(x))
+            items = [conv(x.strip()) for x in v.split(',')]
         if typ == 'BOOL':
             items = [bool(x) for x in items]
         op['tag_type'] = code
@@ -120,6 +123,30 @@ def ref_operation(text, fragment=False, int_type='INT'):
             if byte // size + len(items) > op['elements']:
                 raise ValueError('beyond range')
     return op
+
+
+def split_quoted(v):
+    """comma separated values; blanks after a comma are skipped; a double-quoted value keeps everything between its quotes"""
+    out = []
+    i = 0
+    n = len(v)
+    while i <= n:
+        while i < n and v[i] == ' ':
+            i += 1
+        if i < n and v[i] == '"':
+            j = v.index('"', i + 1)
+            out.append(v[i + 1:j])
+            i = j + 1
+            while i < n and v[i] != ',':
+                i += 1
+            i += 1
+        else:
+            j = v.find(',', i)
+            if j < 0:
+                j = n
+            out.append(v[i:j])
+            i = j + 1
+    return out
 
 
 def gen_ops(rng, n):
@@ -153,6 +180,11 @@ def gen_ops(rng, n):
                 vals = ','.join(str(rng.randint(0, 100)) for _ in range(nvals))
             s += ' = ' + (('(%s)' % typ) if typ else '') + vals
         out.append(s)
+    for _ in range(max(n // 10, 5)):
+        k = rng.randint(1, 3)
+        vals = [rng.choice(['"abc"', '"de f"', '" padded "', '"x,y"', 'plain', '""']) for _ in range(k)]
+        sep = rng.choice([',', ', ', ',  '])
+        out.append('%s[0-%d] = (%s)%s' % (rng.choice(['N', 'Tag_1']), k - 1, rng.choice(['STRING', 'SSTRING']), sep.join(vals)))
     return out
 
 
